@@ -336,7 +336,23 @@ func leafFixedBitSet(nbytes int) *codec[pk.FixedBitSet] {
 	}
 }
 
-func leafBitSet() *codec[pk.BitSet] {
+func leafBitSet() *codec[pk.BitSet] { return leafBitSetLens("BitSet", sliceLens) }
+
+// leafBitSetEveryLen: every count of longs 0..70 and the counts around 256, 512, 1024 and 2048 (a decoder reading
+// the longs in blocks has its boundary at a multiple of the block size, whatever that is)
+func leafBitSetEveryLen() *codec[pk.BitSet] {
+	var lens []int
+	for i := 0; i <= 70; i++ {
+		lens = append(lens, i)
+	}
+	for _, b := range []int{256, 512, 1024, 2048} {
+		lens = append(lens, b-1, b, b+1)
+	}
+	lens = append(lens, 600, 1500)
+	return leafBitSetLens("BitSet(every length 0..70, around 256/512/1024/2048)", lens)
+}
+
+func leafBitSetLens(name string, lens []int) *codec[pk.BitSet] {
 	mkv := func(n, salt int) pk.BitSet {
 		b := make(pk.BitSet, n)
 		for i := range b {
@@ -368,8 +384,8 @@ func leafBitSet() *codec[pk.BitSet] {
 		{"spare-capacity-below-value", func() pk.BitSet { return stale(127)[:100] }},
 	}
 	return &codec[pk.BitSet]{
-		name: "BitSet", kind: "BitSet", n: len(sliceLens),
-		gen:   func(i int) pk.BitSet { return mkv(sliceLens[i], i) },
+		name: name, kind: "BitSet", n: len(lens),
+		gen:   func(i int) pk.BitSet { return mkv(lens[i], i) },
 		np:    len(ps),
 		prior: func(i int) (pk.BitSet, string) { return ps[i].mk(), ps[i].name },
 		ref:   func(b []byte, v pk.BitSet) []byte { return refwire.AppendBitSet(b, v) },
